@@ -16,6 +16,7 @@ import binascii
 import json
 import os
 import re
+import struct
 
 
 PID = "C15"
@@ -32,11 +33,19 @@ def esc(b):
     return "".join(chr(c) if (32 <= c < 127 and c not in (34, 124, 126)) else "~%02x" % c for c in b)
 
 
+def float_bits(text):
+    """math.Float64bits of a value the harness printed with strconv 'g' -1 (exact round trip; NaN -> the quiet NaN)"""
+    try:
+        x = float(text or "0")
+    except ValueError:
+        x = float("nan")
+    return struct.unpack(">Q", struct.pack(">d", x))[0]
+
+
 def case_to_line(c):
-    """id | kind | #labelsets { #pairs { k | v } } | #batches { #entries { fp | labelset | ts | err | msg | tsf | val } } | #items { item } | #order { fp } | out
-    (decoded by decode_case in model/JsonStream.v)"""
+    """id | kind | #labelsets { #pairs { k | v } } | #batches { #entries { fp | labelset | ts | err | msg | bits } } | #items { item } | #order { fp } | out
+    (decoded by decode_case in model/JsonStream.v; the number texts are computed by the model from ts and the float bits)"""
     lsets, idx = [], {}
-    matrix = c["kind"] in ("matrix", "vector") or c["kind"].startswith("prom")      # the number texts are used by these writers only
     f = [str(c["id"]), c["kind"]]
     def intern(l):
         key = json.dumps(l or [])
@@ -62,7 +71,7 @@ def case_to_line(c):
         f.append(str(len(b or [])))
         for e in b or []:
             f += [e["fp"], str(intern(e.get("lbls"))), str(e["ts"]), str(e.get("err", 0)),
-                  esc(unhex(e["msg"])), esc(e.get("tsf", "") if matrix else ""), esc(e.get("valt", "") if matrix else "")]
+                  esc(unhex(e["msg"])), str(float_bits(e.get("v")))]
     items = c.get("items") or []
     f.append(str(len(items)))
     f += [esc(unhex(it)) for it in items]
@@ -78,24 +87,25 @@ def eval_cases(ck, name, cases):
            "Import ListNotations.\nOpen Scope lb_scope.\n"
            "Definition raw : list lbytes := [\n  " + ";\n  ".join(case_to_line(c) for c in cases) + "].\n"
            "Definition res := Eval vm_compute in (let cases := decode_cases raw in\n"
-           "  (Z.of_nat (undecodable raw) :: nil, mismatches cases, spec_violations cases, unreadable cases)).\n"
-           "Definition U := Eval vm_compute in fst (fst (fst res)).\nPrint U.\n"
-           "Definition M := Eval vm_compute in snd (fst (fst res)).\nPrint M.\n"
-           "Definition V := Eval vm_compute in snd (fst res).\nPrint V.\n"
-           "Definition R := Eval vm_compute in snd res.\nPrint R.\n")
+           "  (Z.of_nat (undecodable raw) :: nil, mismatches cases, spec_violations cases, unreadable cases, float_disagreements cases)).\n"
+           "Definition U := Eval vm_compute in fst (fst (fst (fst res))).\nPrint U.\n"
+           "Definition M := Eval vm_compute in snd (fst (fst (fst res))).\nPrint M.\n"
+           "Definition V := Eval vm_compute in snd (fst (fst res)).\nPrint V.\n"
+           "Definition R := Eval vm_compute in snd (fst res).\nPrint R.\n"
+           "Definition F := Eval vm_compute in snd res.\nPrint F.\n")
     rc, out = ck.coq_eval(name, txt)
     if rc != 0:
-        return None, None, None, out
+        return None, None, None, None, out
     flat = " ".join(out.split())
     res = []
-    for nm in ("U", "M", "V", "R"):
+    for nm in ("U", "M", "V", "R", "F"):
         m = re.search(nm + r" = \[(.*?)\]\s*: list Z", flat)
         if not m:
-            return None, None, None, out
+            return None, None, None, None, out
         res.append([int(x) for x in re.findall(r"-?\d+", m.group(1))])
     if res[0] != [0]:
-        return None, None, None, "%d case(s) could not be decoded by decode_case\n" % res[0][0] + out
-    return res[1], res[2], res[3], out
+        return None, None, None, None, "%d case(s) could not be decoded by decode_case\n" % res[0][0] + out
+    return res[1], res[2], res[3], res[4], out
 
 
 def case_size(c):
@@ -167,20 +177,23 @@ def run_encoders(ck):
                   "%d of %d: %s" % (len(skipped), len(cases), [c["skip"] for c in skipped[:3]]))
     ok_cases = [c for c in cases if not c.get("panic") and not c.get("skip")]
 
-    mism, viol, unread = [], [], []
+    mism, viol, unread, fdis = [], [], [], []
     shard = 400
     for k in range(0, len(ok_cases), shard):
-        m, v, r, out = eval_cases(ck, "C15_enc_%d" % (k // shard), ok_cases[k:k + shard])
+        m, v, r, fd, out = eval_cases(ck, "C15_enc_%d" % (k // shard), ok_cases[k:k + shard])
         if m is None:
             ck.obligation("encoder cases evaluated inside Coq", False, out[-1500:])
             return
         mism += m
         viol += v
         unread += r
+        fdis += fd
     ck.obligation("correspondence: render(model tokens) = bytes sent by the implementation, on %d result sets" % len(ok_cases),
                   not mism and not panics, "mismatching case ids: %s" % mism[:10])
     ck.obligation("spec oracle: every body is one JSON document equal to the intended document of its rows", not viol,
                   "violating case ids: %s" % viol[:10])
+    ck.obligation("float64(ts) and the quotients by 1e9 / 1000 of model/GoFloat.v (rne) equal Coq's IEEE 754 specification (SpecFloat.SFdiv) on every timestamp",
+                  not fdis, "case ids: %s" % fdis[:10])
     # independent readers agree on validity
     unread_s = set(unread)
     disagree = [c["id"] for c in ok_cases if c["valid"] == (c["id"] in unread_s)]
